@@ -291,6 +291,32 @@ def pr_spec(vec, N, d):
     return sv.div(sv.mul(S1, S1), sv.mul(sv.to_real(N), S2))
 
 
+def cauchy_schwarz_clauses(vec, N, d, prefix="", tag=""):
+    """(sum_t a_t)^2 <= N sum_t a_t^2 for a_t = |e_t|^2 >= 0 of the (N, d) field `vec`, by induction over the particle number:
+      Q(n, c): sum_{t<n} a_t^2 - 2 c sum_{t<n} a_t + n c^2 >= 0     (base n = 0, step n -> n+1: adds (a_n - c)^2)
+    and the instance c = S1(N)/N.  Yields (name, goal, opts) obligations and finally (None, S1^2 <= N S2, None): the fact that the
+    induction principle (trusted rule) gives from base + step + instance."""
+    n, c = sv.integer("n_ind" + tag), sv.real("c_ind" + tag)
+
+    def Q(k, cc):
+        S1, S2, _ = pr_sums(vec, N, d, n=k)
+        return sv.cmp(">=", sv.add(sv.sub(S2, sv.mul(sv.mul(2, cc), S1)), sv.mul(sv.to_real(k), sv.mul(cc, cc))), 0)
+    yield prefix + "induction:Q(0,c)", Q(0, c), {}
+    # the step adds (a_n - c)^2 >= 0: the square is given to the solver as an (own, trivially true) fact so that the step is
+    # linear arithmetic over the monomials and does not depend on the non-linear solver's variable order
+    a_n = pr_sums(vec, N, d)[2](n)
+    sq = sv.cmp(">=", sv.mul(sv.sub(a_n, c), sv.sub(a_n, c)), 0)
+    yield prefix + "induction:Q(n,c)=>Q(n+1,c)", sv.implies(sv.and_(n >= 0, Q(n, c)), Q(sv.add(n, 1), c)), {"assume": [sq]}
+    xg = sv.real("x_gen" + tag)
+    yield prefix + "lemma:square-nonnegative", sv.cmp(">=", sv.mul(xg, xg), 0), {}
+    S1, S2, _ = pr_sums(vec, N, d)
+    Nr = sv.to_real(N)
+    cs = sv.cmp("<=", sv.mul(S1, S1), sv.mul(Nr, S2))
+    inst = Q(N, sv.div(S1, Nr))               # the instance c = S1/N of the induction's conclusion
+    yield prefix + "cauchy-schwarz-from-Q(N,S1/N)", sv.generalize(sv.implies(sv.and_(inst, N >= 1), cs), [S1, S2])[0], {}
+    yield None, cs, None
+
+
 class ParticipationRatio(Unit):
     """PR = (sum_i |e_i|^2)^2 / (N sum_i |e_i|^4) (docs/vectors.md); in (0, 1] for a non-zero field.
     The bound is Cauchy-Schwarz (sum a)^2 <= N sum a^2, proved by induction over the particle number:
@@ -321,26 +347,15 @@ class ParticipationRatio(Unit):
         d, N, vec = inp["d"], inp["N"], inp["vec"]
         v = out.value
         yield "PR=(sum|e|^2)^2/(N.sum|e|^4)", sv.cmp("==", v, pr_spec(vec, N, d))
-        # induction over n for Q(n, c)
-        n, c = sv.integer("n_ind"), sv.real("c_ind")
-
-        def Q(k, cc):
-            S1, S2, _ = pr_sums(vec, N, d, n=k)
-            return sv.cmp(">=", sv.add(sv.sub(S2, sv.mul(sv.mul(2, cc), S1)), sv.mul(sv.to_real(k), sv.mul(cc, cc))), 0)
-        yield "induction:Q(0,c)", Q(0, c)
-        # the step adds (a_n - c)^2 >= 0: the square is given to the solver as an (own, trivially true) fact so that the step is
-        # linear arithmetic over the monomials and does not depend on the non-linear solver's variable order
-        a_n = pr_sums(vec, N, d)[2](n)
-        sq = sv.cmp(">=", sv.mul(sv.sub(a_n, c), sv.sub(a_n, c)), 0)
-        yield "induction:Q(n,c)=>Q(n+1,c)", sv.implies(sv.and_(n >= 0, Q(n, c)), Q(sv.add(n, 1), c)), {"assume": [sq]}
-        xg = sv.real("x_gen")
-        yield "lemma:square-nonnegative", sv.cmp(">=", sv.mul(xg, xg), 0)
+        # Cauchy-Schwarz (S1^2 <= N S2) by induction over n for Q(n, c)
+        cs = None
+        for name, goal, opts in cauchy_schwarz_clauses(vec, N, d):
+            if name is None:
+                cs = goal
+            else:
+                yield name, goal, opts
         S1, S2, _ = pr_sums(vec, N, d)
-        g1, g2 = sv.real("S1_gen"), sv.real("S2_gen")
         Nr = sv.to_real(N)
-        cs = sv.cmp("<=", sv.mul(S1, S1), sv.mul(Nr, S2))
-        inst = Q(N, sv.div(S1, Nr))               # the instance c = S1/N of the induction's conclusion
-        yield "cauchy-schwarz-from-Q(N,S1/N)", sv.generalize(sv.implies(sv.and_(inst, N >= 1), cs), [S1, S2])[0]
         # the induction principle over n (base + step above) gives Q(N, c) for every c; its instance is assumed here
         yield "0<PR<=1", sv.and_(sv.cmp(">", v, 0), sv.cmp("<=", v, 1)), {"assume": [cs]}
         yield "div0:N.sum|e|^4!=0", sv.cmp("!=", sv.mul(S2, Nr), 0), {"assume": [cs]}
@@ -511,6 +526,34 @@ class Sys:
                 out.append(sv.zb(sv.cmp("==", self.BO(i, j, p, q), sv.mul(Bij[p][q], self.w_off(i, j)))))
         return out
 
+    # ---- the same definitions one by one (the structure clauses reveal only the ones they need)
+    def def_within(self, i, j):
+        return self.F_WITHIN(sv.znum(i), sv.znum(j)) == sv.zb(self.within(i, j))
+
+    def bd_def(self, i, j, p, q):
+        """definiens of Bdiag(i, j, p, q)"""
+        return sv.mul(self.block(i, j, "ii")[p][q], self.w_diag(i))
+
+    def bo_def(self, i, j, p, q):
+        """definiens of Boff(i, j, p, q)"""
+        return sv.mul(self.block(i, j, "ij")[p][q], self.w_off(i, j))
+
+    def frac(self, i, j):
+        """fractional coordinates (r_i - r_j) H^-1 (the argument of rint in the contract of remove_pbc)"""
+        from contracts import C02
+        row = [sv.sub(self.pos.get((i, c)), self.pos.get((j, c))) for c in range(self.d)]
+        return C02._vecmat(row, self.G, self.d)
+
+    def sqrt_mass(self, i):
+        """sqrt(m_i): component of the mass-weighted uniform translation M^1/2 e_q at particle i"""
+        return A._pick([sv.sqrt(x) for x in self.m], self.ty(i))
+
+    def symmetric_params(self):
+        """the pair parameters are parameters of unordered type pairs (docs/hessian.md: 'for all pairs of particle type')"""
+        K = self.K
+        return sv.and_(*[sv.cmp("==", tab[a][b], tab[b][a]) for tab in (self.eps_t, self.sig_t, self.rc_t) for a in range(K) for b in range(a)]) \
+            if K > 1 else True
+
     def sqrt_mm(self):
         """instances sqrt(m_a m_a) = m_a of the lemma `x > 0 => sqrt(x x) = x` (proved once, extra_checks)"""
         return [sv.zb(sv.cmp("==", sv.sqrt(sv.mul(x, x)), x)) for x in self.m]
@@ -523,12 +566,23 @@ class Sys:
     def off_entry(self, i, j, p, q):
         return self.BO(i, j, p, q)
 
+    def entry(self, i, p, j, q):
+        """component (p, q) of block (i, j) of M^-1/2 d2U M^-1/2"""
+        return sv.ite(sv.cmp("==", i, j), lambda: self.diag_sum(i, p, q),
+                      lambda: sv.ite(self.WITHIN(i, j), lambda: self.off_entry(i, j, p, q), sv.to_frac(0.0)))
+
     def hessian_spec(self, a, b):
         """entry (a, b) of M^-1/2 d2U M^-1/2, a = i d + p, b = j d + q"""
         d = self.d
-        i, p, j, q = sv.floordiv(a, d), sv.mod(a, d), sv.floordiv(b, d), sv.mod(b, d)
-        return sv.ite(sv.cmp("==", i, j), lambda: self.diag_sum(i, p, q),
-                      lambda: sv.ite(self.WITHIN(i, j), lambda: self.off_entry(i, j, p, q), sv.to_frac(0.0)))
+        return self.entry(sv.floordiv(a, d), sv.mod(a, d), sv.floordiv(b, d), sv.mod(b, d))
+
+
+def translation_summand(X, Y, g, h, mi, mj):
+    """X = g (1/m_i), Y = h (1/sqrt(m_i m_j)), h = -g  =>  X sqrt(m_i) + Y sqrt(m_j) = 0: the contribution of the pair (i, j) to row i of
+    H applied to M^1/2 e_q vanishes (X = Bdiag, Y = Boff in the product form of their definitions, g = B[p][q], h = d2u/da_p db_q)"""
+    one = sv.to_frac(1.0)
+    hyp = sv.and_(sv.cmp("==", X, sv.mul(g, sv.div(one, mi))), sv.cmp("==", Y, sv.mul(h, sv.div(one, sv.sqrt(sv.mul(mi, mj))))), sv.cmp("==", h, sv.neg(g)))
+    return sv.implies(hyp, sv.cmp("==", sv.add(sv.mul(X, sv.sqrt(mi)), sv.mul(Y, sv.sqrt(mj))), 0))
 
 
 def _find_loops(qualname="HessianMatrix.diagonalize_hessian"):
@@ -683,7 +737,7 @@ class Diagonalize(Unit):
         return ["assembly:diagonal-block=sum_j-B(i,j)/m_i", "assembly:off-diagonal-block=-B(i,j)/sqrt(m_i.m_j)", "assembly:other-rows-untouched",
                 "saved-matrix=M^-1/2.d2U.M^-1/2", "files:hessian-iff-savehessian,evecs-iff-saveevecs,csv-always", "eigh-is-applied-to-the-saved-matrix",
                 "saved-evecs=eigenvectors", "omega=sqrt(eigenvalue)-if-positive", "PR=participation-ratio-of-eigenvector-as-(N,d)-field",
-                "frame-inputs-not-written"]
+                "frame-inputs-not-written"] + self.STRUCTURE + self.PR_RANGE
 
     def ensures(self, ctx, case, inp, out):
         S, d = inp["S"], inp["d"]
@@ -719,6 +773,7 @@ class Diagonalize(Unit):
             yield "saved-matrix=M^-1/2.d2U.M^-1/2", True
         _, arg, evals, evecs, w, V, _ = eg[0]
         yield "eigh-is-applied-to-the-saved-matrix", is_spec(arg)
+        yield from self._structure(ctx, S, d, hs[0][2] if hs else arg)
         if es:
             E = es[0][2]
             ok = isinstance(E, A.Arr) and E.ndim == 2 and A.dim_eq_syntactic(E.shape[0], n) and A.dim_eq_syntactic(E.shape[1], n)
@@ -731,6 +786,8 @@ class Diagonalize(Unit):
         if not ok:
             yield "omega=sqrt(eigenvalue)-if-positive", False
             yield "PR=participation-ratio-of-eigenvector-as-(N,d)-field", False
+            for nm in self.PR_RANGE:
+                yield nm, False
             return
         k = ctx.int("k")
         kin = sv.and_(k >= 0, sv.cmp("<", k, n))
@@ -738,6 +795,190 @@ class Diagonalize(Unit):
         yield "omega=sqrt(eigenvalue)-if-positive", sv.implies(kin, sv.cmp("==", snap["omega"].get((k,)), sv.ite(sv.cmp(">", lam, 0), lambda: sv.sqrt(lam), lam)))
         vec = lambda idx: evecs.get((sv.add(sv.mul(idx[0], d), idx[1]), k))
         yield "PR=participation-ratio-of-eigenvector-as-(N,d)-field", sv.implies(kin, sv.cmp("==", snap["PR"].get((k,)), pr_spec(vec, S.N, d)))
+        yield from self._pr_range(ctx, S, d, n, k, kin, evecs, vec, snap["PR"].get((k,)))
+
+    PR_RANGE = ["PR-range:regrouping:induction-base(n=0)", "PR-range:regrouping:induction-step(n->n+1)",
+                "PR-range:eigenvector-is-a-non-zero-field:sum_n|e_n|^2=1", "PR-range:induction:Q(0,c)", "PR-range:induction:Q(n,c)=>Q(n+1,c)",
+                "PR-range:lemma:square-nonnegative", "PR-range:cauchy-schwarz-from-Q(N,S1/N)", "PR-range:0<PR<=1-for-every-saved-mode"]
+
+    def _pr_range(self, ctx, S, d, dN, k, kin, evecs, vec, pr_k):
+        """the participation ratio written for mode k lies in (0, 1]: the eigenvector (column k of eigh's V, normalised: assumed
+        contract of eigh) reshaped row-major to (N, d) is a non-zero field, by the regrouping
+            G(n):  sum_{b < d n} V(b,k)^2  =  sum_{t < n} sum_{c < d} V(t d + c, k)^2        (induction over n: base, step)
+        at n = N, and Cauchy-Schwarz for this field (the same induction as in the unit participation_ratio, on the eigenvector)."""
+        N = S.N
+        m = ctx.int("m_s")
+
+        def flat(hi):
+            return Sum(0, hi, lambda b: sv.mul(evecs.get((b, k)), evecs.get((b, k))))
+
+        def G(h):
+            return sv.cmp("==", flat(sv.mul(d, h)), pr_sums(vec, N, d, n=h)[0])
+        deep = {"solver_opts": dict(self.solver_opts or {}, rounds=d + 1, unfold_deep=True)}
+        yield "PR-range:regrouping:induction-base(n=0)", G(0)
+        yield "PR-range:regrouping:induction-step(n->n+1)", sv.implies(sv.and_(m >= 0, G(m)), G(sv.add(m, 1))), deep
+        S1 = pr_sums(vec, N, d)[0]
+        unit_norm = sv.implies(kin, sv.cmp("==", S1, 1))
+        # the induction principle (base + step above) gives G(N); eigh's normalisation sum_{b < dN} V(b,k)^2 = 1 is instantiated for column k
+        yield "PR-range:eigenvector-is-a-non-zero-field:sum_n|e_n|^2=1", unit_norm, {"assume": [G(N)]}
+        # Cauchy-Schwarz for this field, a_t = |e_t|^2 = sum_c V(t d + c, k)^2:  Q(n, c): S2(n) - 2 c S1(n) + n c^2 >= 0 by induction over n in
+        # the form "values of the partial sums": base Q(0; 0, 0); step for arbitrary reals s1, s2 (the partial sums), kappa >= 0 and the
+        # new term a (generalised: nothing about a_n is needed):  Q(kappa; s1, s2) => Q(kappa + 1; s1 + a, s2 + a^2)
+        c, kap, s1, s2, a_ = (sv.real(x + "_ev") for x in ("c", "kappa", "s1", "s2", "a"))
+
+        def Q(kk, x1, x2, cc):
+            return sv.cmp(">=", sv.add(sv.sub(x2, sv.mul(sv.mul(2, cc), x1)), sv.mul(kk, sv.mul(cc, cc))), 0)
+        plain = {"solver_opts": {}, "timeout": 20}
+        yield "PR-range:induction:Q(0,c)", Q(0, 0, 0, c), plain
+        sq = sv.cmp(">=", sv.mul(sv.sub(a_, c), sv.sub(a_, c)), 0)
+        yield "PR-range:lemma:square-nonnegative", sq, plain
+        yield ("PR-range:induction:Q(n,c)=>Q(n+1,c)", sv.implies(sv.and_(kap >= 0, Q(kap, s1, s2, c)), Q(sv.add(kap, 1), sv.add(s1, a_), sv.add(s2, sv.mul(a_, a_)), c)),
+               dict(plain, assume=[sq]))
+        S1, S2, _ = pr_sums(vec, N, d)
+        Nr = sv.to_real(N)
+        cs = sv.cmp("<=", sv.mul(S1, S1), sv.mul(Nr, S2))
+        # the induction rule gives Q(N; S1(N), S2(N), c) for every c; the instance c = S1/N:
+        yield "PR-range:cauchy-schwarz-from-Q(N,S1/N)", sv.generalize(sv.implies(sv.and_(Q(Nr, S1, S2, sv.div(S1, Nr)), N >= 1), cs), [S1, S2])[0], plain
+        yield "PR-range:0<PR<=1-for-every-saved-mode", sv.implies(kin, sv.and_(sv.cmp(">", pr_k, 0), sv.cmp("<=", pr_k, 1))), {"assume": [cs, unit_norm]}
+
+    # ------------------------------------------------------------------------------------------ symmetry, translations
+    STRUCTURE = ["symmetric:minimum-image-odd:D(j,i)=-D(i,j)",
+                 "symmetric:distance:|D(j,i)|=|D(i,j)|",
+                 "symmetric:neighbour-relation:within(i,j)=within(j,i)",
+                 "symmetric:pair-parameters-and-weight:(t_j,t_i)=(t_i,t_j)",
+                 "symmetric:pair-block:B(D(j,i))^T/sqrt(m_j.m_i)=B(D(i,j))/sqrt(m_i.m_j)",
+                 "symmetric:off-diagonal-entry:Boff(j,i,q,p)=Boff(i,j,p,q)",
+                 "symmetric:diagonal-summand:B(D(i,t))[p][q]=B(D(i,t))[q][p]",
+                 "symmetric:diagonal-summand:Bdiag(i,t,p,q)=Bdiag(i,t,q,p)",
+                 "symmetric:H[i.d+p,j.d+q]=H[j.d+q,i.d+p]",
+                 "translations:cross-derivative:d2u/da.db=-d2u/da.da-at-D(i,n)",
+                 "translations:summand:(B/m_i).sqrt(m_i)-(B/sqrt(m_i.m_n)).sqrt(m_n)=0",
+                 "translations:no-self-term:within(i,n)=>n!=i",
+                 "translations:row-sum:induction-base(n=0)",
+                 "translations:row-sum:induction-step(n->n+1)",
+                 "translations:constant-factor:induction-base(n=0)",
+                 "translations:constant-factor:induction-step(n->n+1)",
+                 "translations:sum_j-H[i.d+p,j.d+q].sqrt(m_j)=0"]
+
+    def _structure(self, ctx, S, d, Mx):
+        """Symmetry and zero modes of the matrix `Mx` that is saved / handed to eigh, derived from its entry-wise form (the value the
+        assembly obligations establish) and nothing else about the code:
+          (a) Mx[i d + p, j d + q] = Mx[j d + q, i d + p]                      (pair parameters of unordered type pairs)
+          (b) sum_{j<N} Mx[i d + p, j d + q] sqrt(m_j) = 0                     (any mask; the statement asks for full periodicity)
+        at symbolic particles i, j and components p, q.  Every fact about the named spec functions within_rc / Bdiag / Boff used in
+        the two final queries is its own obligation, proved from their definitions (revealed at the instance), the contract of
+        remove_pbc (minimum image odd: rint(-a) = -rint(a), lemma) and the differentiation lemmas; sums over the neighbours are
+        handled by Sigma-extensionality ((a), diagonal block) and by two inductions over the upper limit ((b))."""
+        N, K = S.N, S.K
+        i, j, n = ctx.int("i_s"), ctx.int("j_s"), ctx.int("n_s")
+        p, q = ctx.int("p_s"), ctx.int("q_s")
+        comps = [(a, b) for a in range(d) for b in range(d)]
+        zero = sv.to_frac(0.0)
+
+        def blk(i_, p_, j_, q_):
+            return Mx.get((sv.add(sv.mul(i_, d), p_), sv.add(sv.mul(j_, d), q_)))
+
+        def rng(x, hi):
+            return sv.and_(sv.cmp(">=", x, 0), sv.cmp("<", x, hi))
+
+        def Z(x):
+            return sv.zb(x) if isinstance(x, sv.SV) else (z3.BoolVal(x) if isinstance(x, bool) else x)
+
+        def conj(xs):
+            xs = [Z(x) for x in xs]
+            return z3.And(*xs) if len(xs) != 1 else xs[0]
+        SYM = Z(S.symmetric_params())
+        # ---------------------------------------------------------------- (a) symmetry
+        Dij, Dji = S.Dvec(i, j), S.Dvec(j, i)
+        mij = S.frac(i, j)
+        rw = [(sv.rint(sv.neg(mij[k])), sv.neg(sv.rint(mij[k]))) for k in range(d)]      # instances of lemma:rint(-a)=-rint(a)
+        odd = conj([sv.cmp("==", Dji[c], sv.neg(Dij[c])) for c in range(d)])
+        yield "symmetric:minimum-image-odd:D(j,i)=-D(i,j)", odd, {"ring_only": True, "rewrites": rw}
+        big = list(Dij) + list(Dji)
+        same_r = Z(sv.cmp("==", S.dist(j, i), S.dist(i, j)))
+        yield "symmetric:distance:|D(j,i)|=|D(i,j)|", same_r, {"ring_only": True, "rewrites": rw}
+        w_sym = z3.Implies(SYM, S.F_WITHIN(i.t, j.t) == S.F_WITHIN(j.t, i.t))
+        yield ("symmetric:neighbour-relation:within(i,j)=within(j,i)",
+               sv.generalize(z3.Implies(z3.And(S.def_within(i, j), S.def_within(j, i), same_r), w_sym), [S.dist(i, j), S.dist(j, i)])[0])
+        tabs = (S.eps_t, S.sig_t, S.rc_t)
+        pairs = [(sv.znum(S.par(tab, j, i)), sv.znum(S.par(tab, i, j))) for tab in tabs] + [(sv.znum(S.w_off(j, i)), sv.znum(S.w_off(i, j)))]
+        pairs = [(a_, b_) for a_, b_ in pairs if not a_.eq(b_)]
+        par_sym = z3.Implies(SYM, conj([a_ == b_ for a_, b_ in pairs] or [True]))
+        yield "symmetric:pair-parameters-and-weight:(t_j,t_i)=(t_i,t_j)", par_sym
+        # the (j,i) pair block with the parameters of the type pair (t_i,t_j) (previous clause) is the transpose of the (i,j) block
+        e_ij = {c: S.bo_def(i, j, c[0], c[1]) for c in comps}
+        e_ji = {c: S.bo_def(j, i, c[1], c[0]) for c in comps}
+        e_ji_s = {c: (sv.SV(z3.substitute(sv.znum(e_ji[c]), *pairs)) if pairs else e_ji[c]) for c in comps}
+        blk_sym = conj([sv.cmp("==", e_ji_s[c], e_ij[c]) for c in comps])
+        yield "symmetric:pair-block:B(D(j,i))^T/sqrt(m_j.m_i)=B(D(i,j))/sqrt(m_i.m_j)", blk_sym, {"ring_only": True, "rewrites": rw}
+        bo_sym = z3.Implies(SYM, conj([sv.cmp("==", S.BO(j, i, c[1], c[0]), S.BO(i, j, c[0], c[1])) for c in comps]))
+        for c in comps:      # Boff(j,i,q,p) = its definiens = the same with the parameters of (t_i,t_j) = definiens of Boff(i,j,p,q) = Boff(i,j,p,q)
+            lhs, rhs = S.BO(j, i, c[1], c[0]), S.BO(i, j, c[0], c[1])
+            hyp = conj([sv.cmp("==", rhs, e_ij[c]), sv.cmp("==", lhs, e_ji[c]), par_sym, sv.cmp("==", e_ji_s[c], e_ij[c])])
+            yield ("symmetric:off-diagonal-entry:Boff(j,i,q,p)=Boff(i,j,p,q)",
+                   sv.generalize(z3.Implies(hyp, z3.Implies(SYM, Z(sv.cmp("==", lhs, rhs)))), big + [sv.SV(x) for pr in pairs for x in pr])[0], {"solver_opts": {"uf_abstraction": True}})
+        up = [c for c in comps if c[0] < c[1]]
+        dd = {c: S.bd_def(i, n, c[0], c[1]) for c in comps}
+        dd_sym = conj([sv.cmp("==", dd[c], dd[(c[1], c[0])]) for c in up])
+        yield "symmetric:diagonal-summand:B(D(i,t))[p][q]=B(D(i,t))[q][p]", dd_sym, {"ring_only": True}
+
+        def bd_sym_at(t):
+            return conj([sv.cmp("==", S.BD(i, t, c[0], c[1]), S.BD(i, t, c[1], c[0])) for c in up])
+        defs_bd = conj([sv.cmp("==", S.BD(i, n, c[0], c[1]), dd[c]) for c in comps])
+        yield ("symmetric:diagonal-summand:Bdiag(i,t,p,q)=Bdiag(i,t,q,p)",
+               sv.generalize(z3.Implies(z3.And(defs_bd, dd_sym), bd_sym_at(n)), list(S.Dvec(i, n)))[0])
+        inr = conj([rng(i, N), rng(j, N), rng(p, d), rng(q, d)])
+        # the three facts are used at the pair (i, j) they were proved at, and (third) at the Skolem index of Sigma-extensionality
+        yield ("symmetric:H[i.d+p,j.d+q]=H[j.d+q,i.d+p]", z3.Implies(z3.And(inr, SYM), Z(sv.cmp("==", blk(i, p, j, q), blk(j, q, i, p)))),
+               {"assume": [w_sym, bo_sym], "solver_opts": dict(self.solver_opts, pointwise=[lambda x: bd_sym_at(sv.SV(x))])})
+        # ---------------------------------------------------------------- (b) uniform translations
+        s_i, s_n = S.sqrt_mass(i), S.sqrt_mass(n)
+        Bii, Bij = S.block(i, n, "ii"), S.block(i, n, "ij")
+        cross = conj([sv.cmp("==", Bij[a][b], sv.neg(Bii[a][b])) for a, b in comps])
+        yield "translations:cross-derivative:d2u/da.db=-d2u/da.da-at-D(i,n)", cross, {"ring_only": True}
+        # mass weights: instances (g, h) = (B, -B)[p][q], (m_i, m_j) = the masses of every type pair, of the lemma
+        #   m_i, m_j > 0, X = g (1/m_i), Y = h (1/sqrt(m_i m_j)), h = -g  =>  X sqrt(m_i) + Y sqrt(m_j) = 0     (C11:lemma:translation-summand:product-form)
+        def lemma_inst(X, Y, g, h):
+            return [translation_summand(X, Y, g, h, S.m[a], S.m[b]) for a in range(K) for b in range(K)]
+
+        def summand_zero(t, c):
+            return sv.cmp("==", sv.add(sv.mul(S.BD(i, t, c[0], c[1]), s_i), sv.mul(S.BO(i, t, c[0], c[1]), S.sqrt_mass(t))), 0)
+        goals = []
+        for c in comps:
+            g, h = Bii[c[0]][c[1]], Bij[c[0]][c[1]]
+            hyp = [sv.cmp("==", S.BD(i, n, c[0], c[1]), S.bd_def(i, n, c[0], c[1])), sv.cmp("==", S.BO(i, n, c[0], c[1]), S.bo_def(i, n, c[0], c[1])),
+                   sv.cmp("==", h, sv.neg(g))] + lemma_inst(S.BD(i, n, c[0], c[1]), S.BO(i, n, c[0], c[1]), g, h)
+            goals.append(sv.generalize(z3.Implies(conj(hyp), Z(summand_zero(n, c))), [g, h])[0])
+        yield "translations:summand:(B/m_i).sqrt(m_i)-(B/sqrt(m_i.m_n)).sqrt(m_n)=0", conj(goals), {"assume": [cross]}
+        no_self = z3.Implies(S.F_WITHIN(i.t, n.t), Z(sv.cmp("!=", n, i)))
+        yield "translations:no-self-term:within(i,n)=>n!=i", sv.generalize(z3.Implies(S.def_within(i, n), no_self), list(S.Dvec(i, n)))[0]
+        # row sum up to n:  R(n):  sum_{t<n} Mx[i d+p, t d+q] sqrt(m_t) = [i<n] DS sqrt(m_i) - sum_{t<n} [within(i,t)] Bdiag(i,t,p,q) sqrt(m_i)
+        #   with DS = sum_{t<N} [within(i,t)] Bdiag(i,t,p,q) the diagonal entry; then  L(n): (sum_{t<n} [..] Bdiag) sqrt(m_i) = sum_{t<n} [..] Bdiag sqrt(m_i)
+        DS = S.diag_sum(i, p, q)
+        DSs = sv.mul(DS, s_i)
+
+        def rowsum(k):
+            return Sum(0, k, lambda t: sv.mul(blk(i, p, t, q), S.sqrt_mass(t)))
+
+        def dss(k):
+            return Sum(0, k, lambda t: sv.ite(S.WITHIN(i, t), lambda: sv.mul(S.BD(i, t, p, q), s_i), zero))
+
+        def R(k):
+            return sv.cmp("==", rowsum(k), sv.sub(sv.ite(sv.cmp("<", i, k), DSs, zero), dss(k)))
+
+        def L(k):
+            return sv.cmp("==", sv.mul(S.diag_sum(i, p, q, upto=k), s_i), dss(k))
+        n1 = sv.add(n, 1)
+        fix = conj([rng(i, N), rng(p, d), rng(q, d)])
+        # summand_zero is stated for the concrete components; p, q of the row sum are symbolic in 0..d-1 (congruence)
+        yield "translations:row-sum:induction-base(n=0)", z3.Implies(fix, Z(R(0)))
+        yield ("translations:row-sum:induction-step(n->n+1)", z3.Implies(z3.And(fix, Z(rng(n, N)), Z(R(n))), Z(R(n1))),
+               {"assume": [conj([summand_zero(n, c) for c in comps]), no_self]})
+        yield "translations:constant-factor:induction-base(n=0)", z3.Implies(fix, Z(L(0)))
+        yield "translations:constant-factor:induction-step(n->n+1)", z3.Implies(z3.And(fix, Z(sv.cmp(">=", n, 0)), Z(L(n))), Z(L(n1)))
+        # the induction principle (base + step above) gives R(N) and L(N); their instances are assumed here
+        yield ("translations:sum_j-H[i.d+p,j.d+q].sqrt(m_j)=0", z3.Implies(fix, Z(sv.cmp("==", rowsum(N), 0))),
+               {"assume": [z3.Implies(fix, Z(R(N))), z3.Implies(fix, Z(L(N)))]})
 
     def replay(self, case, clause, model, seed):
         return _replay_diag(case, clause, model, seed)
@@ -980,6 +1221,9 @@ def lemmas():
     out.append(("lemma:translation-summand:(b/m_i).sqrt(m_i)-(b/sqrt(m_i.m_j)).sqrt(m_j)=0",
                 sv.implies(sv.and_(mi > 0, mj > 0),
                            sv.cmp("==", sv.add(sv.mul(sv.div(b_, mi), sv.sqrt(mi)), sv.mul(sv.div(sv.neg(b_), sv.sqrt(sv.mul(mi, mj))), sv.sqrt(mj))), 0)), {}))
+    g_, h_, X_, Y_ = sv.real("g"), sv.real("h"), sv.real("X"), sv.real("Y")
+    out.append(("lemma:translation-summand:product-form:X=g.(1/m_i),Y=h.(1/sqrt(m_i.m_j)),h=-g=>X.sqrt(m_i)+Y.sqrt(m_j)=0",
+                sv.implies(sv.and_(mi > 0, mj > 0), translation_summand(X_, Y_, g_, h_, mi, mj)), {}))
     return out
 
 
